@@ -32,6 +32,11 @@ import (
 //     a def-use path, a write after the proof, swapped windows); findings that
 //     merely say "this shape was not recognised" become NOT DECIDED.
 
+const (
+	crySxExplain = " COMPLETENESS BEFORE VERDICT: every composition group above (an entry point and the clauses about it) is first read by its shape recogniser; if that reports anything, the entry point is EVALUATED symbolically (internal/flow sx_*.go: the SSA is executed on symbolic arguments — in-module helpers, methods of helper types, closures and method values are entered with parameters bound to arguments, counted loops and loops over constant tables run with concrete counters, bytes.Buffer / strings.Builder / hash.Hash / cipher.Block / cipher.BlockMode / encoding/binary / fmt.Sprintf,Fprintf / strconv / hex / base64 follow their documented contracts, package-level variables that nothing writes outside their initialiser evaluate to it, length tests on a value of unknown length are enumerated as paths with the learnt bounds) and the result TERM is compared with the specification term. Complete and equal: the group is discharged by evaluation. Complete and different: the difference is reported (a positively observed mismatch). Evaluation stopped (an instruction, library call or data-dependent branch that is not modelled; possible aliasing): the recogniser's findings stay violations only where they rest on a construct that was positively observed in a completely extracted flow (a def-use path with the wrong labels, swapped windows, a wrong constant, a write after the proof, a package-level constant written elsewhere, a panic met on a path without data-dependent branches); findings that only say that a shape was not recognised are recorded as NOT DECIDED (discharged, with a note naming what stopped the evaluation), and the entity still counts towards its rule's floor."
+	crySxAssume  = "symbolic evaluation (internal/flow sx_*.go): the contracts of the modelled library objects (Write appends, Sum does not change the state, Encrypt/CryptBlocks write dst from src under the key/iv given at construction, copy/append/PutUintN semantics, Sprintf verbs %s %d %x %X %v, Itoa/FormatInt, hex/base64 are pure); two evaluations name the value of time.Now / rand.Read by call site and occurrence; a branch on unknown data whose one arm only returns a non-nil error is followed on the other arm (the success path) and recorded; reading byte i of a value of unknown length assumes it exists (a shorter value panics — C07's concern)"
+)
+
 // sxLabels are the primitives that are never entered by the evaluator.
 type sxConf struct {
 	labels map[*ssa.Function]string
@@ -50,6 +55,8 @@ func (x *cry) sxConf() *sxConf {
 	add(cryNT, "", "NTHash")
 	add(cryLM, "", "LMHash")
 	add(cryNTLMv1, "", "ParityAdjust")
+	add(cryPKCS7, "", "Pad")
+	add(cryPKCS7, "", "Unpad")
 	if fn := x.P.Func(cryMD4, "", "New"); fn != nil {
 		c.ctors[fn] = "md4"
 	}
@@ -182,6 +189,13 @@ func positiveReason(r string) bool {
 		"key length is",
 		"iteration count is",
 		"PRF hash is",
+		"not by md4.New",                             // the constructor that was seen
+		"is not hmac.New(md5.New",                    // the constructor that was seen
+		"not hmac.New",                               //
+		"the proof MAC is not HMAC-MD5",              //
+		"the block mode runs in the wrong direction", // NewCBCDecrypter seen where NewCBCEncrypter belongs
+		"GPP uses 16 zero bytes",                     // a constant non-zero iv
+		"AES-CBC needs 16",                           // a constant pad size other than 16
 	} {
 		if strings.Contains(r, s) {
 			return true
